@@ -343,14 +343,17 @@ def lifecycle_history(world, rnd, nops, disorder=0.0, reconf_cfgs=None, sync=Tru
 
 
 
-def fill_history(world, rnd, nops):
+def fill_history(world, rnd, nops, reconf=0.0):
     """Fill the machine to capacity and keep it there: many fractional and mixed (exclusive + fraction) requests,
     occasional departures, so that admission decisions are made at nearly full pools."""
     ops, ctrs, pod_of = [], {}, {}
-    menu = [300, 500, 700, 800, 1000, 1200, 1300, 1500, 1700, 1800, 2000, 2500]
+    menu = [300, 500, 500, 700, 800, 1000, 1000, 1200, 1300, 1500, 1500, 1700, 1800, 2000, 2000, 2500, 3000]
     n = 0
     while len(ops) < nops:
         live = [c for c, s in ctrs.items() if s != "stopped"]
+        if reconf and rnd.random() < reconf:
+            ops.append({"op": "Reconfigure", "config": world["config"]})       # identical re-delivery at a (nearly) full machine
+            continue
         if live and rnd.random() < 0.22:
             c = rnd.choice(live)
             ops.append({"op": "Stop", "pod": pod_of[c], "c": c})
@@ -385,7 +388,14 @@ FUZZ_VALUES = ["", " ", "true", "TRUE", "maybe", "0", "-1", "1234567890123456789
                "- a\n- b", "a: {b: [c, d]}", "dram,", ",pmem", "dram,pmem,hbm,mixed,bogus", "duration: 5s", "5", "5s", "-5s", "99999h",
                "\"", "\\", "\t\n", "x" * 10000, "%s%s%s%n", "../../etc", "c1: [foo]", "[{scope: {key: name, operator: In, values: [c1]}, match: {key: name, operator: Matches, values: ['*']}, weight: 9999999999}]",
                "[{scope: {key: labels/x, operator: Bogus}}]", "[{match: {}}]", "name: [", "high", "low", "none", "normal", "HIGH",
-               "{\"duration\": \"10s\"}", "{\"duration\": 10}", "{\"duration\": \"-1\"}", "{\"bogus\": true}"]
+               "{\"duration\": \"10s\"}", "{\"duration\": 10}", "{\"duration\": \"-1\"}", "{\"bogus\": true}",
+               # affinity / anti-affinity shapes: per-container lists with null entries, tiny and odd joint keys
+               "c1: [null]", "c2: [~, ~]", "c1: null", "c1: []", "c1: [{}]", "c3: [{match: null}]",
+               "c1: [{match: {key: ':', operator: Exists}}]", "c1: [{match: {key: ':x', operator: Exists}}]",
+               "c2: [{scope: {key: '::', operator: Exists}, match: {key: ':/', operator: Equals, values: [a]}}]",
+               "c1: [{match: {key: ':::', operator: In, values: []}}]", "c1: [{match: {key: '', operator: Exists}}]",
+               "c2: [{match: {key: 'labels/', operator: Matches, values: ['[']}}]", "c1: [{match: {key: name, operator: Equals}}]",
+               "c1: [{match: {key: name, operator: Equals, values: [a, b]}, weight: -9999999999}]", "c3: [c1, c2]", "c1: [c1]"]
 
 
 def fuzz_annotations(rnd, containers=("c1", "c2", "c3", "c4")):
@@ -572,8 +582,13 @@ def valid_configs(world, rnd):
     else:
         t = copy.deepcopy(cfg.get("balloonTypes") or [])
         if t:
-            out += [dict(cfg, balloonTypes=[dict(t[0], maxCPUs=3)] + t[1:]), dict(cfg, balloonTypes=t + [{"name": "extra", "minCPUs": 1, "maxCPUs": 2}]),
-                    dict(cfg, balloonTypes=[dict(t[0], shareIdleCPUsInSame="system")] + t[1:])]
+            # (only changes under which the containers already running still fit: widening, never narrowing, limits)
+            out += [dict(cfg, balloonTypes=[dict(t[0], maxCPUs=0)] + t[1:]), dict(cfg, balloonTypes=t + [{"name": "extra", "minCPUs": 1, "maxCPUs": 2}]),
+                    dict(cfg, balloonTypes=[dict(t[0], shareIdleCPUsInSame="system")] + t[1:]),
+                    # changes that only touch pinning switches / CPU classes (the policy's light reconfiguration path)
+                    dict(cfg, balloonTypes=[dict(x, pinMemory=False) for x in t]),
+                    dict(cfg, balloonTypes=[dict(t[0], pinMemory=False)] + t[1:]),
+                    dict(cfg, balloonTypes=[dict(x, cpuClass="cls2-" + x["name"]) for x in t], idleCPUClass="idle2")]
     return out
 
 
